@@ -128,6 +128,7 @@ pub fn run_c01(rep: &mut Report, thorough: bool, replay: Option<&str>) {
                 fds: *rng.pick(&[0usize, 1, 7, 40]),
                 stack_pages_max: 6,
                 null_sp_threads: 0,
+                big_region_pages: 0,
             };
             let sc = match scen::build_target(&mut rng, &cfg) {
                 Ok(s) => s,
@@ -188,7 +189,7 @@ pub fn run_c15(rep: &mut Report, thorough: bool) {
         let reps = if thorough && n > 6 { 3 } else { 1 };
         for _ in 0..reps {
             let sentinels = std::cmp::min(n - 1, 6);
-            let cfg = TargetCfg { sentinels, max_spinners: 1, heartbeats: 0, sleepers: n - 1 - sentinels, exiters: 0, names: true, regions: 1, elf_files: 0, fds: 0, stack_pages_max: 2, null_sp_threads: 0 };
+            let cfg = TargetCfg { sentinels, max_spinners: 1, heartbeats: 0, sleepers: n - 1 - sentinels, exiters: 0, names: true, regions: 1, elf_files: 0, fds: 0, stack_pages_max: 2, null_sp_threads: 0, big_region_pages: 0 };
             let mut sc = match scen::build_target(&mut rng, &cfg) {
                 Ok(s) => s,
                 Err(e) => {
